@@ -259,7 +259,9 @@ let emit (id : string) (_stream : string)
     let same = text 0 <> None && text 0 = text 2 && text 0 = text 3 && text 0 = text 4 in
     (* character sets whose clusters merge with the padding that completes them are the known finding D11 *)
     let gcs = (match outs.(5) with Some a -> Common.plain_cfg cls a.opts.Options.o_charset | None -> true) in
-    Printf.printf "%s V C17 0 %s %s variants\n" id (b2s gcs) (b2s same);
+    (* ... which only an operation that draws with the character set can show *)
+    let uses_charset = (match trace with (_, Hist.OTable _, _) :: _ -> true | _ -> false) in
+    Printf.printf "%s V C17 0 %s %s variants\n" id (b2s (gcs || not uses_charset)) (b2s same);
     (match outs.(5), outs.(6) with
      | Some a, Some b ->
        let g = Common.plain_cfg cls a.opts.Options.o_charset in
